@@ -1,1 +1,422 @@
-From Coq Require Import ZArith List.
+(* Totality (fuel), bounds safety (checked reads) and error positions of the tokenizer and the
+   recursive-descent parser, carried by one predicate [good] (JsonProofsBase). *)
+From Coq Require Import ZArith List Bool Lia.
+Require Import ZifyBool.
+From Json Require Import JsonSpec JsonModel JsonProofsBase.
+Import ListNotations.
+Local Open Scope Z_scope.
+
+Ltac split_if :=
+  lazymatch goal with |- good _ _ _ (if ?b then _ else _) => destruct b eqn:? end.
+Ltac eqb_subst :=
+  repeat match goal with
+         | H : (?c =? ?k) = true |- _ => apply Z.eqb_eq in H; subst c
+         end.
+
+(* ---------- skipSpace ---------- *)
+Lemma skip_shift l r l1 r1 (x : res (Z * list Z)) :
+  moved l r l1 r1 -> good l1 r1 (fun a => moved l1 r1 (fst a) (snd a)) x ->
+  good l r (fun a => moved l r (fst a) (snd a)) x.
+Proof.
+  intros M G. eapply good_shift; [exact M|exact G|].
+  intros a Ha. eapply moved_trans; eauto.
+Qed.
+
+Lemma skip_space_good f : forall l r, (length r < f)%nat ->
+  good l r (fun a => moved l r (fst a) (snd a)) (skip_space f l r).
+Proof.
+  induction f as [|f IH]; intros l r Hf; [lia|].
+  cbn [skip_space]. destruct r as [|c t].
+  - cbn. apply moved_refl.
+  - cbn [peek adv length] in *. split_if.
+    + eqb_subst. destruct t as [|d t'].
+      * cbn [peek]. cbn [Z.eqb]. eapply skip_shift; [apply moved_cr; cbn; lia|apply IH; cbn; lia].
+      * cbn [peek adv length] in *. split_if.
+        -- eqb_subst. eapply skip_shift; [apply moved_crlf|apply IH; lia].
+        -- eapply skip_shift; [apply moved_cr; cbn; lia|apply IH; cbn [length]; lia].
+    + split_if.
+      * eqb_subst. eapply skip_shift; [apply moved_lf|apply IH; lia].
+      * split_if.
+        -- eapply skip_shift; [apply moved_plain; lia|apply IH; lia].
+        -- cbn. apply moved_refl.
+Qed.
+
+(* ---------- four hex digits ---------- *)
+Lemma hexn_good n : forall l r w,
+  good l r (fun a => moved l r l (snd a) /\ (length (snd a) + n = length r)%nat) (hexn n l r w).
+Proof.
+  induction n as [|n IH]; intros l r w.
+  - cbn. split; [apply moved_refl|lia].
+  - cbn [hexn]. destruct r as [|c t].
+    + cbn. apply moved_refl.
+    + cbn [peek adv]. split_if.
+      * pose proof (is_hex_nz _ Heqb) as (? & ? & ?).
+        eapply good_shift; [apply moved_plain; lia|apply IH|].
+        intros a [M L]. split; [|cbn [length]; lia].
+        eapply moved_trans; [apply moved_plain; lia|exact M].
+      * cbn. apply moved_refl.
+Qed.
+
+(* ---------- the string token ---------- *)
+Definition str_post (l : Z) (r : list Z) (a : Z * list Z * list Z) : Prop :=
+  moved l r (fst (fst a)) (snd (fst a)) /\ (length (snd (fst a)) < length r)%nat.
+
+Lemma str_post_shift l r l1 r1 a :
+  moved l r l1 r1 -> str_post l1 r1 a -> str_post l r a.
+Proof.
+  intros M [M1 L1]. split; [eapply moved_trans; eauto|].
+  apply moved_length in M. lia.
+Qed.
+
+Lemma str_loop_good f : forall l r acc, (length r < f)%nat ->
+  good l r (str_post l r) (str_loop f l r acc).
+Proof.
+  induction f as [|f IH]; intros l r acc Hf; [lia|].
+  assert (STEP : forall l1 r1 acc1, moved l r l1 r1 -> (length r1 < length r)%nat ->
+                 good l r (str_post l r) (str_loop f l1 r1 acc1)).
+  { intros l1 r1 acc1 M L. eapply good_shift; [exact M|apply IH; lia|].
+    intros a Ha. eapply str_post_shift; eauto. }
+  cbn [str_loop]. destruct r as [|c t].
+  - cbn. apply moved_refl.
+  - cbn [peek adv length] in *. split_if; [cbn; apply moved_refl|].
+    split_if.
+    { (* CR *) eqb_subst. destruct t as [|d t'].
+      - cbn [peek]. cbn [Z.eqb]. apply STEP; [apply moved_cr; cbn; lia|cbn; lia].
+      - cbn [peek adv]. split_if.
+        + eqb_subst. apply STEP; [apply moved_crlf|cbn; lia].
+        + apply STEP; [apply moved_cr; cbn; lia|cbn; lia]. }
+    split_if.
+    { (* LF *) eqb_subst. apply STEP; [apply moved_lf|lia]. }
+    split_if.
+    { (* backslash *) eqb_subst.
+      assert (M1 : moved l (92 :: t) l t) by (apply moved_plain; lia).
+      destruct t as [|e t2].
+      - cbn. exact M1.
+      - cbn [peek adv length] in *.
+        assert (M2 : e <> 10 -> e <> 13 -> moved l (92 :: e :: t2) l t2).
+        { intros. eapply moved_trans; [exact M1|apply moved_plain; lia]. }
+        split_if; [apply STEP; [apply M2; lia|lia]|].
+        split_if; [apply STEP; [apply M2; lia|lia]|].
+        split_if; [apply STEP; [apply M2; lia|lia]|].
+        split_if; [apply STEP; [apply M2; lia|lia]|].
+        split_if; [apply STEP; [apply M2; lia|lia]|].
+        split_if; [apply STEP; [apply M2; lia|lia]|].
+        split_if.
+        { (* \u *)
+          eqb_subst. specialize (M2 ltac:(lia) ltac:(lia)).
+          eapply good_bind.
+          { eapply good_shift; [exact M2|apply hexn_good|]. intros a Ha. exact Ha. }
+          intros [w1 r3] [M3 L3]. cbn [fst snd] in *.
+          assert (M3' : moved l (92 :: 117 :: t2) l r3) by (eapply moved_trans; [exact M2|exact M3]).
+          split_if.
+          - (* high surrogate *)
+            destruct r3 as [|c3 r4].
+            + cbn. exact M3'.
+            + cbn [peek adv]. split_if; [cbn; exact M3'|].
+              destruct r4 as [|c4 r5].
+              * cbn. exact M3'.
+              * cbn [peek adv]. split_if; [cbn; exact M3'|].
+                assert (c3 = 92) by lia. assert (c4 = 117) by lia. subst c3 c4.
+                assert (M5 : moved l (92 :: 117 :: t2) l r5).
+                { eapply moved_trans; [exact M3'|].
+                  eapply moved_trans; apply moved_plain; lia. }
+                eapply good_bind.
+                { eapply good_shift; [exact M5|apply hexn_good|]. intros a Ha. exact Ha. }
+                intros [w2 r6] [M6 L6]. cbn [fst snd length] in *.
+                split_if; [cbn; exact M3'|].
+                apply STEP; [eapply moved_trans; eauto|lia].
+          - apply STEP; [exact M3'|lia]. }
+        split_if; [cbn; exact M1|].
+        apply STEP; [exact M1|cbn [length]; lia]. }
+    split_if.
+    { (* closing quote *) eqb_subst. cbn. split; cbn [fst snd length]; [apply moved_plain; lia|lia]. }
+    apply STEP; [apply moved_plain; lia|lia].
+Qed.
+
+(* ---------- numbers ---------- *)
+Lemma num_loop_good f : forall l r acc isd, (length r < f)%nat ->
+  good l r (fun a => moved l r l (fst (fst a))) (num_loop f r acc isd).
+Proof.
+  induction f as [|f IH]; intros l r acc isd Hf; [lia|].
+  assert (STEP : forall c t acc1 isd1, r = c :: t -> c <> 10 -> c <> 13 ->
+                 good l r (fun a => moved l r l (fst (fst a))) (num_loop f t acc1 isd1)).
+  { intros c t acc1 isd1 -> ? ?. cbn [length] in Hf.
+    eapply good_shift; [apply moved_plain; lia|apply (IH l); lia|].
+    intros a Ha. eapply moved_trans; [apply moved_plain; lia|exact Ha]. }
+  cbn [num_loop]. destruct r as [|c t].
+  - cbn. apply moved_refl.
+  - cbn [peek adv]. split_if; [eapply STEP; [reflexivity|lia|lia]|].
+    split_if; [eapply STEP; [reflexivity|lia|lia]|].
+    split_if; [pose proof (is_digit_nz _ Heqb1); eapply STEP; [reflexivity|lia|lia]|].
+    cbn. apply moved_refl.
+Qed.
+
+Lemma num_loop_first f c t acc isd :
+  (c =? 45) || is_digit c = true ->
+  num_loop (S f) (c :: t) acc isd = num_loop f t (c :: acc) isd.
+Proof.
+  intros H. cbn [num_loop peek adv].
+  destruct ((c =? 69) || (c =? 101) || (c =? 45) || (c =? 43)) eqn:E1; [reflexivity|].
+  destruct (c =? 46) eqn:E2; [unfold is_digit in H; lia|].
+  destruct (is_digit c) eqn:E3; [reflexivity|lia].
+Qed.
+
+(* ---------- literals ---------- *)
+Lemma cmp_lit_skip lit : forall r, cmp_lit r lit = true -> r = lit ++ skipn (length lit) r.
+Proof.
+  induction lit as [|c lt IH]; intros r H; [reflexivity|].
+  destruct r as [|b t]; [discriminate|]. cbn [cmp_lit] in H.
+  destruct (b =? c) eqn:E; [|discriminate]. apply Z.eqb_eq in E. subst b.
+  cbn [length skipn app]. f_equal. now apply IH.
+Qed.
+
+Lemma moved_lit l lit r :
+  forallb (fun c => negb (brk c)) lit = true -> moved l (lit ++ r) l r.
+Proof.
+  induction lit as [|c lt IH]; intros H; [apply moved_refl|].
+  cbn [forallb] in H. apply andb_true_iff in H as [Hc H]. unfold brk in Hc.
+  eapply moved_trans; [apply moved_plain; lia|apply IH, H].
+Qed.
+
+(* ---------- readToken ---------- *)
+Definition tw (t : tok) : nat := if fst t =? 0 then 0%nat else 1%nat.
+Definition msr (p : pos) (t : tok) : nat := (length (p_rest p) + tw t)%nat.
+
+Definition tok_post (p : pos) (a : pos * tok) : Prop :=
+  moved (p_line p) (p_rest p) (p_line (fst a)) (p_rest (fst a)) /\
+  (msr (fst a) (snd a) <= length (p_rest p))%nat.
+
+Lemma lit_branch l r lit k v :
+  cmp_lit r lit = true -> forallb (fun c => negb (brk c)) lit = true -> lit <> [] -> k <> 0 ->
+  good l r (fun a : pos * tok => moved l r (p_line (fst a)) (p_rest (fst a)) /\
+                                 (msr (fst a) (snd a) <= length r)%nat)
+       (Ok (mkPos l (skipn (length lit) r), (k, v))).
+Proof.
+  intros C NB NE K. apply cmp_lit_skip in C. remember (skipn (length lit) r) as rs.
+  cbn. unfold msr, tw. cbn [fst snd p_rest p_line]. split.
+  - rewrite C. now apply moved_lit.
+  - rewrite C. rewrite app_length. destruct lit; [congruence|]. cbn [length].
+    destruct (k =? 0) eqn:E; lia.
+Qed.
+
+Lemma read_token_good p : good (p_line p) (p_rest p) (tok_post p) (read_token p).
+Proof.
+  destruct p as [l0 r0]. unfold read_token, token_at. cbn [p_line p_rest].
+  eapply good_bind; [apply skip_space_good; lia|].
+  intros [l r] M. cbn [fst snd] in M.
+  assert (SH : forall x, good l r (fun a => moved l r (p_line (fst a)) (p_rest (fst a)) /\
+                                           (msr (fst a) (snd a) <= length r)%nat) x ->
+               good l0 r0 (tok_post (mkPos l0 r0)) x).
+  { intros x G. eapply good_shift; [exact M|exact G|].
+    intros a [Ma La]. split; cbn [p_line p_rest]; [eapply moved_trans; eauto|].
+    apply moved_length in M. lia. }
+  apply SH. clear SH M.
+  destruct r as [|c t].
+  - cbn. split; [apply moved_refl|cbn; lia].
+  - cbn [peek adv]. split_if.
+    { cbn. unfold msr, tw. cbn. split; [apply moved_refl|lia]. }
+    split_if.
+    { cbn. unfold msr, tw. cbn [fst snd p_rest p_line length]. rewrite Heqb.
+      unfold is_punct in Heqb0. split; [apply moved_plain; lia|lia]. }
+    split_if.
+    { eqb_subst.
+      eapply good_bind.
+      { eapply good_shift; [apply (moved_plain l 34 t); lia|apply str_loop_good; lia|].
+        intros a Ha. exact Ha. }
+      intros [[l' r'] s] [Ma La]. cbn [fst snd] in *. cbn. unfold msr, tw. cbn [fst snd p_rest p_line length].
+      split; [eapply moved_trans; [apply moved_plain; lia|exact Ma]|cbn; lia]. }
+    split_if.
+    { split_if; [|cbn; apply moved_refl].
+      change 4%nat with (length lit_true).
+      apply lit_branch; [assumption|reflexivity|discriminate|lia]. }
+    split_if.
+    { split_if; [|cbn; apply moved_refl].
+      change 5%nat with (length lit_false).
+      apply lit_branch; [assumption|reflexivity|discriminate|lia]. }
+    split_if.
+    { split_if; [|cbn; apply moved_refl].
+      change 4%nat with (length lit_null).
+      apply lit_branch; [assumption|reflexivity|discriminate|lia]. }
+    split_if; [|cbn; apply moved_refl].
+    cbn [length]. rewrite num_loop_first by exact Heqb5.
+    assert (M1 : moved l (c :: t) l t).
+    { apply moved_plain; unfold is_digit in Heqb5; lia. }
+    eapply good_bind.
+    { eapply good_shift; [exact M1|apply (num_loop_good _ l); lia|]. intros a Ha; exact Ha. }
+    intros [[r' n] isd] Ma. cbn [fst snd] in Ma. cbn.
+    unfold msr, tw. cbn [fst snd p_rest p_line]. split; [eapply moved_trans; eauto|].
+    apply moved_length in Ma. cbn [length]. cbn. lia.
+Qed.
+
+(* ---------- parseValue / parseArray / parseObject ---------- *)
+Definition pv_post (p : pos) (t : tok) (a : value * pos * tok) : Prop :=
+  moved (p_line p) (p_rest p) (p_line (snd (fst a))) (p_rest (snd (fst a))) /\
+  (msr (snd (fst a)) (snd a) < msr p t)%nat.
+
+Notation goodp p := (good (p_line p) (p_rest p)).
+Notation movedp p q := (moved (p_line p) (p_rest p) (p_line q) (p_rest q)).
+
+Lemma tw_nz t : fst t <> 0 -> tw t = 1%nat.
+Proof. unfold tw. intros H. destruct (fst t =? 0) eqn:E; [lia|reflexivity]. Qed.
+
+Lemma next_tok {B} p (Q : B -> Prop) p1 t1 (K : pos * tok -> res B) :
+  movedp p p1 -> fst t1 <> 0 ->
+  (forall p' t', movedp p p' -> (msr p' t' < msr p1 t1)%nat -> goodp p Q (K (p', t'))) ->
+  goodp p Q (bind (read_token p1) K).
+Proof.
+  intros M NZ H. eapply good_bind.
+  { eapply good_shift; [exact M|apply read_token_good|]. intros a Ha. exact Ha. }
+  intros [p' t'] [M' L']. cbn [fst snd] in *. apply H.
+  - eapply moved_trans; eauto.
+  - unfold msr at 2. rewrite (tw_nz _ NZ). lia.
+Qed.
+
+Lemma pv_shift p t p1 t1 x :
+  movedp p p1 -> (msr p1 t1 <= msr p t)%nat ->
+  goodp p1 (pv_post p1 t1) x -> goodp p (pv_post p t) x.
+Proof.
+  intros M L G. eapply good_shift; [exact M|exact G|].
+  intros a [Ma La]. split; [eapply moved_trans; eauto|lia].
+Qed.
+
+Lemma parser_good f :
+  (forall p t, (2 * msr p t + 1 <= f)%nat -> goodp p (pv_post p t) (parse_value f p t)) /\
+  (forall p t acc, (2 * msr p t + 2 <= f)%nat -> goodp p (pv_post p t) (arr_loop f p t acc)) /\
+  (forall p t acc, (2 * msr p t + 2 <= f)%nat -> goodp p (pv_post p t) (obj_loop f p t acc)).
+Proof.
+  induction f as [|f (IHv & IHa & IHo)]; [repeat split; intros; lia|].
+  repeat split.
+  - (* parseValue *)
+    intros p t Hf. cbn [parse_value].
+    destruct (is_scalar_tok (fst t)) eqn:Esc.
+    { apply (next_tok p _ p t); [apply moved_refl|unfold is_scalar_tok in Esc; lia|].
+      intros p' t' M L. cbn [good]. unfold pv_post. cbn [fst snd]. split; [assumption|lia]. }
+    destruct (fst t =? 91) eqn:E91.
+    { apply (next_tok p _ p t); [apply moved_refl|lia|].
+      intros p1 t1 M L. eapply pv_shift; [exact M| |apply IHa]; lia. }
+    destruct (fst t =? 123) eqn:E123.
+    { apply (next_tok p _ p t); [apply moved_refl|lia|].
+      intros p1 t1 M L. eapply pv_shift; [exact M| |apply IHo]; lia. }
+    cbn. apply moved_refl.
+  - (* parseArray loop *)
+    intros p t acc Hf. cbn [arr_loop].
+    destruct (fst t =? 93) eqn:E93.
+    { apply (next_tok p _ p t); [apply moved_refl|lia|].
+      intros p' t' M L. cbn [good]. unfold pv_post. cbn [fst snd]. split; [assumption|lia]. }
+    eapply good_bind; [apply IHv; lia|].
+    intros [[v p1] t1] [M1 L1]. cbn [fst snd] in *.
+    destruct (fst t1 =? 93) eqn:E93'.
+    { apply (next_tok p _ p1 t1); [exact M1|lia|].
+      intros p' t' M L. cbn [good]. unfold pv_post. cbn [fst snd]. split; [assumption|lia]. }
+    destruct (negb (fst t1 =? 44)) eqn:E44.
+    { cbn. exact M1. }
+    apply (next_tok p _ p1 t1); [exact M1|lia|].
+    intros p2 t2 M2 L2. eapply pv_shift; [exact M2| |apply IHa]; lia.
+  - (* parseObject loop *)
+    intros p t acc Hf. cbn [obj_loop].
+    destruct (fst t =? 125) eqn:E125.
+    { apply (next_tok p _ p t); [apply moved_refl|lia|].
+      intros p' t' M L. cbn [good]. unfold pv_post. cbn [fst snd]. split; [assumption|lia]. }
+    destruct (negb (fst t =? 34)) eqn:E34.
+    { cbn. apply moved_refl. }
+    apply (next_tok p _ p t); [apply moved_refl|lia|].
+    intros p1 t1 M1 L1.
+    destruct (negb (fst t1 =? 58)) eqn:E58.
+    { cbn. exact M1. }
+    apply (next_tok p _ p1 t1); [exact M1|lia|].
+    intros p2 t2 M2 L2.
+    eapply (good_bind _ _ (fun a => movedp p (snd (fst a)) /\ (msr (snd (fst a)) (snd a) < msr p2 t2)%nat)).
+    { eapply good_shift; [exact M2|apply IHv; lia|].
+      intros a [Ma La]. split; [eapply moved_trans; eauto|exact La]. }
+    intros [[v p3] t3] [M3' L3]. cbn [fst snd] in *.
+    destruct (fst t3 =? 125) eqn:E125'.
+    { apply (next_tok p _ p3 t3); [exact M3'|lia|].
+      intros p' t' M L. cbn [good]. unfold pv_post. cbn [fst snd]. split; [assumption|lia]. }
+    destruct (negb (fst t3 =? 44)) eqn:E44.
+    { cbn. exact M3'. }
+    apply (next_tok p _ p3 t3); [exact M3'|lia|].
+    intros p4 t4 M4 L4. eapply pv_shift; [exact M4| |apply IHo]; lia.
+Qed.
+
+(* ---------- parse ---------- *)
+Lemma parse_good s :
+  good 1 s (fun _ : value * pos * tok => True)
+       (bind (read_token (mkPos 1 s)) (fun '(p, t) => parse_value (parse_fuel s) p t)).
+Proof.
+  eapply good_bind; [apply (read_token_good (mkPos 1 s))|].
+  intros [p t] [M L]. cbn [fst snd p_line p_rest] in *.
+  eapply good_shift; [exact M|apply (proj1 (parser_good (parse_fuel s)))|auto].
+  unfold parse_fuel. lia.
+Qed.
+
+Lemma parse_total s : parse s <> POutOfFuel.
+Proof.
+  unfold parse. pose proof (parse_good s) as G.
+  destruct (bind _ _) as [[[v p] t]| | |]; cbn in G; try discriminate; contradiction.
+Qed.
+
+Lemma parse_in_bounds s : parse s <> POutOfBounds.
+Proof.
+  unfold parse. pose proof (parse_good s) as G.
+  destruct (bind _ _) as [[[v p] t]| | |]; cbn in G; try discriminate; contradiction.
+Qed.
+
+Lemma parse_error_position s line col msg :
+  parse s = PErr line col msg -> position_inside s line col.
+Proof.
+  unfold parse. pose proof (parse_good s) as G.
+  destruct (bind _ _) as [[[v p] t]|le at_ m| |]; cbn in G; try discriminate; try contradiction.
+  intros H. injection H as <- <- <-. destruct G as [[pre ->] E].
+  exists pre, at_. split; [reflexivity|]. split; [lia|].
+  unfold column. rewrite app_length.
+  replace (length pre + length at_ - length at_)%nat with (length pre) by lia.
+  rewrite firstn_app, Nat.sub_diag, firstn_all. cbn [firstn]. rewrite app_nil_r.
+  now rewrite back_run_run.
+Qed.
+
+(* line and column are at least 1 and the line does not exceed the number of lines of the text *)
+Lemma position_inside_range s line col :
+  position_inside s line col -> 1 <= line <= 1 + nbreaks s /\ 1 <= col.
+Proof.
+  intros (pre & post & -> & -> & ->).
+  pose proof (nbreaks_nonneg post). pose proof (nbreaks_nonneg pre).
+  split; [|lia]. split; [|lia].
+  (* nbreaks post <= nbreaks (pre ++ post) *)
+  assert (forall a b, nbreaks b <= nbreaks (a ++ b)).
+  { induction a as [|c a IH]; intros b; [cbn; lia|].
+    change ((c :: a) ++ b) with (c :: (a ++ b)). rewrite nbreaks_cons.
+    specialize (IH b). destruct (c =? 10); [lia|]. destruct (c =? 13); [|lia].
+    destruct a as [|d a'].
+    - cbn [app] in *. destruct (hd0 b =? 10); lia.
+    - cbn [app hd0] in *. destruct (d =? 10) eqn:Ed; [|lia]. lia. }
+  specialize (H1 pre post). lia.
+Qed.
+
+(* the executable form used by the check on the implementation's answers is sound *)
+Lemma pos_search_sound total pre post line col :
+  pos_search total post (Z.of_nat (length (run (rev pre)))) line col = true ->
+  exists pre' post', pre ++ post = pre' ++ post' /\
+    line = 1 + (total - nbreaks post') /\ col = 1 + Z.of_nat (length (run (rev pre'))).
+Proof.
+  revert pre. induction post as [|c t IH]; intros pre H; cbn [pos_search] in H.
+  - rewrite orb_false_r in H. exists pre, []. repeat split; lia.
+  - apply orb_true_iff in H as [H|H].
+    + exists pre, (c :: t). repeat split; lia.
+    + specialize (IH (pre ++ [c])).
+      rewrite rev_app_distr in IH. cbn [rev app run] in IH.
+      destruct (brk c) eqn:Eb.
+      * cbn [length] in IH. destruct (IH H) as (pre' & post' & E & ? & ?).
+        exists pre', post'. rewrite <- E, <- app_assoc. repeat split; auto.
+      * cbn [length] in IH. rewrite Nat2Z.inj_succ in IH.
+        replace (Z.succ (Z.of_nat (length (run (rev pre))))) with (Z.of_nat (length (run (rev pre))) + 1) in IH by lia.
+        destruct (IH H) as (pre' & post' & E & ? & ?).
+        exists pre', post'. rewrite <- E, <- app_assoc. repeat split; auto.
+Qed.
+
+Lemma position_insideb_sound s line col :
+  position_insideb s line col = true -> position_inside s line col.
+Proof.
+  unfold position_insideb. intros H.
+  destruct (pos_search_sound (nbreaks s) [] s line col H) as (pre & post & E & ? & ?).
+  exists pre, post. cbn [app] in E. auto.
+Qed.
